@@ -87,3 +87,23 @@ def unchanged(obj, snap):
         if now[k] is not v:
             return False, f"attribute {k} was rebound"
     return True, ""
+
+
+def fresh_result(w, name, res, *operands):
+    """frame: the result is a NEW object (the classes have in-place methods -- normalize, update, invert_lambda,
+    update_Sigma -- so an operation that hands back one of its operands lets a later in-place call corrupt that operand)"""
+    shared = [type(o).__name__ for o in operands if res is o]
+    w.check(name, not shared, f"the result IS the operand object ({', '.join(shared)})")
+
+
+def same_state_keys(w, name, obj, keys_before):
+    """frame: a query may fill the declared caches but must not grow undeclared state on the object (an undeclared memo is
+    invisible to the class invariant and to every in-place method that would have to invalidate it)"""
+    extra = sorted(set(obj.__dict__) - set(keys_before))
+    w.check(name, not extra, f"attributes created by the operation that the class invariant does not cover: {extra}")
+
+
+def params_unchanged(w, name, obj, snap, fields=("Lambda", "nu", "ln_beta")):
+    """frame: the defining parameters of an operand still refer to the same (immutable) arrays; lazily filled caches may change"""
+    bad = [f for f in fields if f in snap and getattr(obj, f, None) is not snap[f]]
+    w.check(name, not bad, f"operand attributes rebound by the operation: {bad}")
